@@ -4899,6 +4899,10 @@ func (c *BytecodeCompiler) compileGenericMethodCallNode(node *ast.GenericMethodC
 
 func (c *BytecodeCompiler) compileMethodCall(receiver ast.ExpressionNode, op *token.Token, nameNode ast.IdentifierNode, args []ast.ExpressionNode, tailCall bool, location *position.Location) {
 	name := identifierToName(nameNode)
+	if c.hasDefer {
+		// the deferred code runs after the call returns, the frame cannot be reused
+		tailCall = false
+	}
 
 	switch op.Type {
 	case token.QUESTION_DOT:
